@@ -174,6 +174,11 @@ def run_case(case):
                 name, len([s for s in prog['steps'] if 'fn' in s]), case['E']),
                 {'missing': missing, 'extra': extra, 'wrong': {k: str(exp[eval(k)])[:200] for k in wrong[:3]}},
                 {'wrong': {k: str(got[eval(k)])[:200] for k in wrong[:3]}}))
+    # the comparison is made on the Playback object, which callers keep: a later replay on the same recorder must not reach into it
+    P.replay(r.env, r.rec_id, {'steps': [{'fn': 'out_b', 'a': ['xt'], 'ret': 'v1'}, {'fn': 'out_static', 'a': ['x1']}]})
+    if P.outputs_map(pl.playback.playback_outputs, aliases) != play_map or P.outputs_map(pl.playback.recorded_outputs, aliases) != rec_map:
+        viols.append(viol('kept-playback:changed-by-later-replay', 'the outputs held by a Playback object changed when the same recorder replayed something else afterwards',
+                          sorted(map(str, play_map)), sorted(map(str, P.outputs_map(pl.playback.playback_outputs, aliases)))))
     nontrivial = exp_rec != exp_play
     return dict(viol=viols, obs=repr((sorted(map(str, play_map.items())))), nontrivial=nontrivial,
                 ntkey=P.canon([prog, case['E']]).__hash__(), transitions=len(prog['steps']) + len(prog2['steps']) + 2)
